@@ -51,6 +51,9 @@ MOTIFS = {
     'mirror-pair5': (['C', 'C', 'O', 'N', 'F'], [(0.75, 0, 0), (-0.75, 0, 0), (0, 1.2, 0.3), (0, -0.4, 1.3), (0, -1.0, -0.8)]),
     # three H interchangeable with respect to the C listed before them; the later O and H tell them apart
     'methanol6': (['C', 'H', 'H', 'H', 'O', 'H'], [(0, 0, 0), (-0.36, 1.03, 0), (-0.36, -0.51, 0.89), (-0.36, -0.51, -0.89), (1.43, 0, 0), (1.75, -0.45, 0.78)]),
+    # chiral through its fourth atom only, which sits exactly HALF A CELL EDGE (cell 'ohalf': c = 6) above the plane of the other three: the
+    # periodic image of that atom one cell below is at the mirror-image position
+    'halfcell4': (['C', 'N', 'O', 'H'], [(0, 0, 0), (5.0, 0, 0), (2.0, 3.5, 0), (2.0, 0, 3.0)]),    # longest pair and farthest-from-axis atom lie IN the plane
     'CFH': (['C', 'F', 'H'], [(0, 0, 0), (1.35, 0, 0), (-0.4, 0.9, 0.45)]),
     'near-collinear4': (['O', 'C', 'S', 'N'], [(0, 0, 0), (1.2, 0.025, 0), (2.7, 0, 0), (3.9, 0.0, 0.01)]),
 }
@@ -71,6 +74,7 @@ CELLS['bigt'] = [[60., 0, 0], [-14., 58., 0], [9., -11., 55.]]
 CELLS['t5'] = [[10., 0, 0], [8., 6., 0], [1.5, -2., 9.]]      # strongly tilted: 37 degrees between a and b, perpendicular height / |b| = 0.59
 CELLS['chain4'] = [[4.0, 0, 0], [0, 10., 0], [0, 0, 10.]]       # as long as the chain patterns below: an occurrence holds an atom AND its own image
 CELLS['chain4t'] = [[4.0, 0, 0], [1.0, 10., 0], [0.5, -1.0, 10.]]
+CELLS['ohalf'] = [[12., 0, 0], [0, 12., 0], [0, 0, 6.]]
 CELLS['orot'] = [[6.0, 8.0, 0.0], [-8.8, 6.6, 0.0], [0.0, 0.0, 12.0]]     # mutually perpendicular vectors (10, 11, 12) NOT aligned with x, y, z
 
 POSES = {
